@@ -57,7 +57,8 @@ theorem groupMoves_eq (names : List String) (T : Q) (demes : List BDeme) (pulses
 /-- what is known at the end of the options of a good time group -/
 structure GroupEnd (T' : Q) (s : BState) (σ : St) (s1 : BState) (g1 : GState) (L1 : List (Nat × Row))
     (ops : List MOp) : Prop where
-  nsat : NSAT ops
+  /-- the fragment: `NSAT` (`GoodGroup`), or `Frag3` (`GoodGroup3`) -/
+  frag : NSAT ops ∨ Frag3 s.numDemes ops
   pos : ∀ o ∈ ops, 1 ≤ o.1 ∧ 1 ≤ o.2.1 ∧ 0 ≤ o.2.2 ∧ o.2.2 ≤ 1
   ub : ∀ o ∈ ops, o.1 ≤ s1.numDemes ∧ o.2.1 ≤ s1.numDemes
   joinNe : ∀ o ∈ ops, o.2.2 = 1 → o.2.1 ≠ o.1
@@ -116,7 +117,7 @@ theorem group_end {N0 T T' : Q} {s s1 : BState} {g1 : GState} {σ σ1 : St} {L1 
         obtain ⟨a1, a2⟩ := a
         obtain ⟨b1, b2⟩ := b
         exact stepEvent_names ha hst) _ _ _ hnames hm
-  refine ⟨hsim1, ⟨hns, ?_, ?_, ?_, ?_, ?_, ?_, hrel, hlen, hkeys, hok1, hnames1, ?_, hinv.n0le, ?_, hinv.dNew, ?_,
+  refine ⟨hsim1, ⟨Or.inl hns, ?_, ?_, ?_, ?_, ?_, ?_, hrel, hlen, hkeys, hok1, hnames1, ?_, hinv.n0le, ?_, hinv.dNew, ?_,
     hinv.pulses, ?_⟩⟩
   · rw [hlink]; exact pos1
   · rw [hlink]; exact hinv.ub
@@ -265,16 +266,24 @@ theorem join_facts (he : GroupEnd T' s σ s1 g1 L1 ops) {o : MOp} (ho : o ∈ op
     rw [hsplit]
     exact foldOps_col_zero pre post o hq hne hpost (delta r)
   · rw [hsplit]
-    apply foldOps_join_pos pre post o hq hne (hsplit ▸ he.nsat)
-    · intro o' ho'
+    have hfr : ∀ o' ∈ pre ++ o :: post, 0 ≤ o'.2.2 ∧ o'.2.2 ≤ 1 := by
+      intro o' ho'
       have := he.pos o' (hsplit ▸ ho')
       exact ⟨this.2.2.1, this.2.2.2⟩
-    · intro o' ho' ha
+    have hpre : ∀ o' ∈ pre, o'.1 = o.1 → o'.2.2 < 1 := by
+      intro o' ho' ha
       have hle := (he.pos o' (by rw [hsplit]; exact List.mem_append_left _ ho')).2.2.2
       rcases Rat.le_iff_lt_or_eq.mp hle with hl | heq
       · exact hl
       · exact ((hl3 o' ho' o (List.mem_cons_self ..) heq).1 ha.symm).elim
-    · intro o' ho'; exact (hpost o' ho').1
+    rcases he.frag with hns | h3
+    · exact foldOps_join_pos pre post o hq hne (hsplit ▸ hns) hfr hpre (fun o' ho' => (hpost o' ho').1)
+    · apply foldOps_join_pos3 pre post o hq hne hfr hpre
+      intro o' ho' hsrc
+      have hmem : o' ∈ ops := by rw [hsplit]; exact List.mem_append_right _ (List.mem_cons_of_mem _ ho')
+      rcases Rat.le_iff_lt_or_eq.mp (he.pos o' hmem).2.2.2 with hl | heq
+      · exact hl
+      · exact (h3.2 o' hmem heq o ho hsrc.symm).elim
 
 /-- `emitB` on the Builder's matrix is `Emits` on the rows as functions -/
 theorem emit_iff (he : GroupEnd T' s σ s1 g1 L1 ops) {ir : Nat × Row} (hir : ir ∈ L1) :
@@ -301,6 +310,46 @@ theorem emit_iff (he : GroupEnd T' s σ s1 g1 L1 ops) {ir : Nat × Row} (hir : i
   simp only [Bool.and_eq_true, Bool.not_eq_true', decide_eq_false_iff_not, hdiag]
   rw [hanc]
   exact And.comm
+
+/-- a population that is not joined at the start of the group has a row -/
+theorem alive_row {T : Q} (hsim : SizeSim T s σ) (he : GroupEnd T' s σ s1 g1 L1 ops) {j : Nat}
+    (hj : j < s.numDemes) (hnj : s.joined.contains j = false) : ∃ ir ∈ L1, ir.1 = j + 1 := by
+  have hlt : j < s.demes.length := by rw [hsim.len, ← hsim.num]; exact hj
+  have h0 := List.getElem?_eq_getElem hlt
+  have hp : j < σ.pops.length := by rw [← hsim.num]; exact hj
+  obtain ⟨rr, _, _, r4⟩ := hsim.rel j _ _ h0 (List.getElem?_eq_getElem hp)
+  apply alive_key hsim he h0
+  rw [rr.2.2]
+  rw [hnj] at r4
+  have : alive σ.pops[j] = true := by
+    cases hh : alive σ.pops[j] with
+    | true => rfl
+    | false => rw [hh] at r4; cases r4
+  simpa [alive] using this
+
+/-- on the third fragment: a move for which no pulse is emitted has a joined source, or is trivial -/
+theorem nonemit_trivial {T : Q} (hsim : SizeSim T s σ) (he : GroupEnd T' s σ s1 g1 L1 ops)
+    (h3 : Frag3 s.numDemes ops) : ∀ o ∈ ops, emitB g1 (o.1 - 1) = false →
+      (∃ o' ∈ ops, o'.1 = o.1 ∧ o'.2.2 = 1) ∨ o.2.1 = o.1 ∨ o.2.2 = 0 := by
+  intro o ho hem
+  obtain ⟨o1, _, _, _⟩ := he.pos o ho
+  have hle := h3.1 o ho
+  obtain ⟨ir, hir, hkey⟩ := alive_row hsim he (j := o.1 - 1) (by omega) (he.srcAlive o ho)
+  have hk : ir.1 = o.1 := by omega
+  have hne : ¬ Emits (fun r => foldOps ops (delta r)) o.1 := by
+    intro hE
+    have := (emit_iff he hir).mpr (by rw [hk]; exact hE)
+    rw [hk, hem] at this
+    cases this
+  have hfrac : ∀ o' ∈ ops, 0 ≤ o'.2.2 ∧ o'.2.2 ≤ 1 := fun o' ho' => ⟨(he.pos o' ho').2.2.1, (he.pos o' ho').2.2.2⟩
+  by_cases hJ : ∃ o' ∈ ops, o'.1 = o.1 ∧ o'.2.2 = 1
+  · exact Or.inl hJ
+  · right
+    have hdiag : foldOps ops (delta o.1) o.1 ≠ 0 := fun e => hJ (diag_zero_joined hfrac e)
+    apply trivial_of_no_offdiag (J := fun a => ∃ o' ∈ ops, o'.1 = a ∧ o'.2.2 = 1) hfrac
+      (fun o' ho' ⟨o'', ho'', e1, e2⟩ => h3.2 o'' ho'' e2 o' ho' e1.symm)
+      (fun o' ho' hq => ⟨o', ho', rfl, hq⟩) hJ
+      (fun k hk hp => hne ⟨hdiag, k, hk, hp⟩) o ho rfl
 
 /-- a deme that `groupMoves` treats as born at the time of the group -/
 theorem born_facts {T : Q} (hsim : SizeSim T s σ) (he : GroupEnd T' s σ s1 g1 L1 ops) (hT0 : T' ≠ 0)
@@ -484,10 +533,17 @@ theorem applyParams_sem_of_end (hsim : SizeSim T s σ) (he : GroupEnd T' s σ s1
     intro x hx b hb hkey
     obtain ⟨hx1, hx2, hxe, _⟩ := initL_mem hx
     -- the read-back structure
-    have hRB : ReadBack ops (fun r => foldOps ops (delta r))
-        (((applyParams T' s1 g1).demes.filter (bornP T')).map (fun D =>
-          (jOf s1.numDemes D + 1, (ancOf g1 (jOf s1.numDemes D)).map (fun po => (po.2 + 1, po.1))))) := by
-      refine ⟨he.nsat, fun o ho => ⟨(he.pos o ho).2.2.1, (he.pos o ho).2.2.2⟩, ?_, ?_, ?_⟩
+    have hfrac : ∀ o ∈ ops, 0 ≤ o.2.2 ∧ o.2.2 ≤ 1 := fun o ho => ⟨(he.pos o ho).2.2.1, (he.pos o ho).2.2.2⟩
+    have hRB : (((((applyParams T' s1 g1).demes.filter (bornP T')).map (fun D =>
+          (jOf s1.numDemes D + 1, (ancOf g1 (jOf s1.numDemes D)).map (fun po => (po.2 + 1, po.1))))).map (·.1)).Nodup)
+        ∧ (∀ b ∈ (((applyParams T' s1 g1).demes.filter (bornP T')).map (fun D =>
+          (jOf s1.numDemes D + 1, (ancOf g1 (jOf s1.numDemes D)).map (fun po => (po.2 + 1, po.1))))),
+            ∀ r, foldOps ops (delta r) b.1 = 0)
+        ∧ (∀ b ∈ (((applyParams T' s1 g1).demes.filter (bornP T')).map (fun D =>
+          (jOf s1.numDemes D + 1, (ancOf g1 (jOf s1.numDemes D)).map (fun po => (po.2 + 1, po.1))))),
+            ∀ k, wsum b.2 k = if k ≠ b.1 ∧ 0 < foldOps ops (delta b.1) k
+              then foldOps ops (delta b.1) k else 0) := by
+      refine ⟨?_, ?_, ?_⟩
       · rw [List.map_map]
         have hsub : (((applyParams T' s1 g1).demes.filter (bornP T')).map (fun D => jOf s1.numDemes D + 1)).Sublist
             ((applyParams T' s1 g1).demes.map (fun D => jOf s1.numDemes D + 1)) :=
@@ -546,8 +602,16 @@ theorem applyParams_sem_of_end (hsim : SizeSim T s σ) (he : GroupEnd T' s σ s1
       show jOf s1.numDemes _ + 1 = x.1
       rw [jOf_name hname hlt]
       omega
-    have hrb := readBack_row hRB x.1 rfl hjoin (fun a => emitB g1 (a - 1))
-      (by rw [← hkey]; exact emit_iff he hb)
+    have hrb : foldBorn (((applyParams T' s1 g1).demes.filter (bornP T')).map (fun D =>
+          (jOf s1.numDemes D + 1, (ancOf g1 (jOf s1.numDemes D)).map (fun po => (po.2 + 1, po.1)))))
+        (foldOps (ops.filter (fun o => (fun a => emitB g1 (a - 1)) o.1)) (delta x.1))
+        = foldOps ops (delta x.1) := by
+      rcases he.frag with hns | h3
+      · exact readBack_row (F := fun r => foldOps ops (delta r)) ⟨hns, hfrac, hRB.1, hRB.2.1, hRB.2.2⟩ x.1 rfl hjoin (fun a => emitB g1 (a - 1))
+          (by rw [← hkey]; exact emit_iff he hb)
+      · exact readBack_row3 (F := fun r => foldOps ops (delta r)) ⟨h3.2, hfrac, hRB.1, hRB.2.1, hRB.2.2⟩ x.1 rfl hjoin (fun a => emitB g1 (a - 1))
+          (by rw [← hkey]; exact fun hem => ((emit_iff he hb).mp hem).1)
+          (nonemit_trivial hsim he h3)
     -- the row `groupMoves` computes, as a function
     have hget : (fun y => Row.get (((applyParams T' s1 g1).demes.filter (bornP T')).foldl
         (fun r D => bornRow1 (jOf s1.numDemes D + 1) ((ancOf g1 (jOf s1.numDemes D)).map (fun po => (po.2 + 1, po.1))) r)
